@@ -668,4 +668,131 @@ theorem docValid_refines (d : didtypes.DIDDocument) (hn : NoNil d) :
             bsplit (Did.validateContexts cs)
             doc_tail d, hn
 
+
+/-! ## `ValidateBasic` of the three messages -/
+
+/-- the registered error a model validation outcome stands for (`bech32` is the SDK's own decoding error, returned
+unwrapped) -/
+def verr : Outcome Unit → Go.Err
+  | .ok _ => none
+  | .err "did/3:invalid-did" => some "did/3"
+  | .err "did/4:invalid-doc" => some "did/4"
+  | .err "did/6:invalid-sig" => some "did/6"
+  | .err "sdk:invalid-address" => some "bech32"
+  | _ => some "?"
+
+/-- what the real bech32 decoder guarantees and the validators rely on: a decoded address is never empty -/
+def NonEmptyDec (bech : Go.Bech32) : Prop := ∀ s a, bech.dec s = some a → a ≠ []
+
+def toCreate (m : didtypes.MsgCreateDIDRequest) (docBytes : Bytes) : Did.Msg :=
+  .create m.Did (m.Document.map toDoc) docBytes m.VerificationMethodId m.Signature m.FromAddress
+def toUpdate (m : didtypes.MsgUpdateDIDRequest) (docBytes : Bytes) : Did.Msg :=
+  .update m.Did (m.Document.map toDoc) docBytes m.VerificationMethodId m.Signature m.FromAddress
+def toDeactivate (m : didtypes.MsgDeactivateDIDRequest) : Did.Msg :=
+  .deactivate m.Did m.VerificationMethodId m.Signature m.FromAddress
+
+theorem isEmpty_len (b : Bytes) : (b.isEmpty || decide (Go.len b = 0)) = decide (b = []) := by
+  cases b with
+  | nil => rfl
+  | cons a t =>
+    have : ¬ (Go.len (a :: t) = 0) := by
+      show ¬ ((((a :: t).length : Nat) : Int) = 0)
+      simp only [List.length_cons]; omega
+    simp [this]
+
+/-- the tail shared by the three validators: signature present, sender address decodes -/
+theorem addr_tail (bech : Go.Bech32) (hne : NonEmptyDec bech) (from_ : Bytes) :
+    (if (!((Go.accAddressFromBech32 bech from_).2).isNone) = true then (P.ok (Go.accAddressFromBech32 bech from_).2 : P Go.Err)
+      else if ((Go.accAddressFromBech32 bech from_).1).isEmpty = true then P.ok (Go.wrap (some "sdk/7"))
+      else P.ok default) =
+    P.ok (verr (if (bech.dec from_).isNone then .err "sdk:invalid-address" else .ok ())) := by
+  unfold Go.accAddressFromBech32
+  cases hd : bech.dec from_ with
+  | none => rfl
+  | some a =>
+    have := hne _ _ hd
+    cases a with
+    | nil => exact absurd rfl this
+    | cons x t => rfl
+
+theorem deactivate_validateBasic_refines (bech : Go.Bech32) (hne : NonEmptyDec bech) (m : didtypes.MsgDeactivateDIDRequest) :
+    didtypes.MsgDeactivateDIDRequest.ValidateBasic bech (some m) =
+      P.ok (verr (Did.validateBasic bech.dec (toDeactivate m))) := by
+  unfold didtypes.MsgDeactivateDIDRequest.ValidateBasic Did.validateBasic toDeactivate
+  simp only [deref_some, P.ok_bind, validateDID_refines, bind_pure_comp, P.pure_eq]
+  bsplit (Did.validateDID m.Did)
+  · rcases Bool.eq_false_or_eq_true (m.Signature.isEmpty) with h | h
+    · have : m.Signature = [] := by cases hs : m.Signature <;> simp_all
+      simp [h, this]; rfl
+    · have hs : m.Signature ≠ [] := by intro hc; rw [hc] at h; cases h
+      have hl : ¬ (Go.len m.Signature = 0) := by
+        cases hsig : m.Signature with
+        | nil => exact absurd hsig hs
+        | cons a t => show ¬ ((((a :: t).length : Nat) : Int) = 0); simp only [List.length_cons]; omega
+      simp only [h, Bool.not_false, if_true, hl, decide_false, Bool.false_eq_true, if_false, hs]
+      exact addr_tail bech hne m.FromAddress
+  · rfl
+
+theorem create_validateBasic_refines (bech : Go.Bech32) (hne : NonEmptyDec bech) (m : didtypes.MsgCreateDIDRequest)
+    (docBytes : Bytes) (hn : ∀ d, m.Document = some d → NoNil d) :
+    didtypes.MsgCreateDIDRequest.ValidateBasic bech (some m) =
+      P.ok (verr (Did.validateBasic bech.dec (toCreate m docBytes))) := by
+  unfold didtypes.MsgCreateDIDRequest.ValidateBasic Did.validateBasic toCreate
+  simp only [deref_some, P.ok_bind, validateDID_refines, bind_pure_comp, P.pure_eq]
+  bsplit (Did.validateDID m.Did)
+  · cases hdoc : m.Document with
+    | none => simp [hdoc]; rfl
+    | some d =>
+      simp only [Option.isNone_some, Bool.not_false, if_true, deref_some, P.ok_bind, docValid_refines d (hn d hdoc),
+        Option.map_some]
+      bsplit ((toDoc d).valid)
+      · have hid : (toDoc d).id = d.Id := rfl
+        rw [hid]
+        by_cases hi : d.Id = m.Did
+        · simp only [hi, ne_eq, not_true_eq_false, decide_false, Bool.false_eq_true, if_false]
+          rcases Bool.eq_false_or_eq_true (m.Signature.isEmpty) with h | h
+          · have : m.Signature = [] := by cases hs : m.Signature <;> simp_all
+            simp [h, this]; rfl
+          · have hs : m.Signature ≠ [] := by intro hc; rw [hc] at h; cases h
+            have hl : ¬ (Go.len m.Signature = 0) := by
+              cases hsig : m.Signature with
+              | nil => exact absurd hsig hs
+              | cons a t => show ¬ ((((a :: t).length : Nat) : Int) = 0); simp only [List.length_cons]; omega
+            simp only [h, Bool.not_false, if_true, hl, decide_false, Bool.false_eq_true, if_false, hs]
+            exact addr_tail bech hne m.FromAddress
+        · simp [hi]; rfl
+      · rfl
+  · rfl
+
+theorem update_validateBasic_refines (bech : Go.Bech32) (hne : NonEmptyDec bech) (m : didtypes.MsgUpdateDIDRequest)
+    (docBytes : Bytes) (hn : ∀ d, m.Document = some d → NoNil d) :
+    didtypes.MsgUpdateDIDRequest.ValidateBasic bech (some m) =
+      P.ok (verr (Did.validateBasic bech.dec (toUpdate m docBytes))) := by
+  unfold didtypes.MsgUpdateDIDRequest.ValidateBasic Did.validateBasic toUpdate
+  simp only [deref_some, P.ok_bind, validateDID_refines, bind_pure_comp, P.pure_eq]
+  bsplit (Did.validateDID m.Did)
+  · cases hdoc : m.Document with
+    | none => simp [hdoc]; rfl
+    | some d =>
+      simp only [Option.isNone_some, Bool.not_false, if_true, deref_some, P.ok_bind, docValid_refines d (hn d hdoc),
+        Option.map_some]
+      bsplit ((toDoc d).valid)
+      · have hid : (toDoc d).id = d.Id := rfl
+        rw [hid]
+        by_cases hi : d.Id = m.Did
+        · simp only [hi, ne_eq, not_true_eq_false, decide_false, Bool.false_eq_true, if_false]
+          rcases Bool.eq_false_or_eq_true (m.Signature.isEmpty) with h | h
+          · have : m.Signature = [] := by cases hs : m.Signature <;> simp_all
+            simp [h, this]; rfl
+          · have hs : m.Signature ≠ [] := by intro hc; rw [hc] at h; cases h
+            have hl : ¬ (Go.len m.Signature = 0) := by
+              cases hsig : m.Signature with
+              | nil => exact absurd hsig hs
+              | cons a t => show ¬ ((((a :: t).length : Nat) : Int) = 0); simp only [List.length_cons]; omega
+            simp only [h, Bool.not_false, if_true, hl, decide_false, Bool.false_eq_true, if_false, hs]
+            exact addr_tail bech hne m.FromAddress
+        · simp [hi]; rfl
+      · rfl
+  · rfl
+
 end Panacea.Refine.DidTypes
